@@ -18,7 +18,8 @@ func init() {
 			"D2 AddValue panics exactly when size = capacity and otherwise inserts, RemoveTop panics exactly when empty and otherwise removes; " +
 			"D3 both ends are the same end: insertion at slot 0 of the value parameter, removal of index 1, views delegate to the storage unchanged; " +
 			"D4 the storage is mutated only by AddValue->InsertValue, RemoveTop->RemoveValue and RemoveAll->RemoveAll." +
-			" Also: the storage of a new stack is made by the constructor, never adopted from an argument; no function creates a stack and pushes more values than the capacity it gave it.",
+			" Also: the storage of a new stack is made by the constructor, never adopted from an argument; no function creates a stack and pushes more values than the capacity it gave it." +
+			" Round 7: RemoveAll clears on every path that is not selected by an emptiness test (conditions are resolved through tuple and named results of helpers).",
 		NotDecided: "LIFO order over histories (rests on the list's element placement, C01 not-decided part).",
 		Run:        runC13,
 	})
